@@ -42,6 +42,15 @@ pub struct C11Case {
     /// Layer 3 (supplementary sampling on real runtimes) instead of exploration: worker threads
     #[serde(default)]
     pub sweep_threads: Option<usize>,
+    /// Explore the multi-threaded text converter (write_bg / write_bed) reading a file with this
+    /// content instead of the writer; `chan` is then the converter's thread count (the capacity
+    /// of its handle channel)
+    #[serde(default)]
+    pub conv: bool,
+    /// bigBed only: the first entry of the last chromosome carries a rest column of this many
+    /// bytes (longer than any buffer between the producer and the staging file)
+    #[serde(default)]
+    pub long_rest: usize,
 }
 
 struct Ctl {
@@ -87,7 +96,9 @@ fn input_text(c: &C11Case) -> String {
         }
         for i in 0..c.items {
             let s = 3 * i + ci as u32;
-            if c.bed {
+            if c.bed && c.long_rest > 0 && ci + 1 == c.nchrom && i == 0 {
+                t.push_str(&format!("{}\t{}\t{}\t{}\n", n, s, s + 4, "L".repeat(c.long_rest)));
+            } else if c.bed {
                 t.push_str(&format!("{}\t{}\t{}\te{}_{}\n", n, s, s + 4, ci, i));
             } else {
                 t.push_str(&format!("{}\t{}\t{}\t{}\n", n, s, s + 2, (ci * 10 + i as usize) as f32 + 0.5));
@@ -176,6 +187,201 @@ fn execute(c: &C11Case, path: &std::path::Path, yields: &[usize], rt: Rt) -> (Re
     (res, sink.bytes(), trace)
 }
 
+type Trace = Vec<(&'static str, u64)>;
+type Exec = (Result<(), String>, Vec<u8>, Trace);
+
+/// All executions with at most `bound` deviations (depth-first over deviation vectors); every
+/// execution's bytes must equal the default schedule's (`first`), and `expected` when given.
+fn explore(bound: usize, tags: &[String], expected: Option<&[u8]>, exec: &mut dyn FnMut(&[usize]) -> Exec, first: Exec, out: &mut Outcome) {
+    let (_, b0, t0) = first;
+    out.count("scenarios", 1);
+    out.count("hook_occurrences_baseline", t0.len() as u64);
+    if let Some(x) = expected {
+        if x != &b0[..] {
+            out.fail(
+                "converter_text_differs_from_single_threaded",
+                tags,
+                format!(
+                    "default schedule gives {} bytes, the single-threaded path {} bytes; first difference at byte {}",
+                    b0.len(),
+                    x.len(),
+                    b0.iter().zip(x.iter()).position(|(a, b)| a != b).unwrap_or(b0.len().min(x.len()))
+                ),
+            );
+            return;
+        }
+    }
+    // determinism of the harness: the same decisions give the same trace and bytes
+    let (_, b0b, t0b) = exec(&[]);
+    if t0b != t0 || b0b != b0 {
+        out.fail("harness_panic", &[], "replaying the all-default schedule gave a different trace or different bytes: a source of nondeterminism is not under the explorer's control".into());
+        return;
+    }
+    let mut traces: HashSet<u64> = HashSet::new();
+    let mut prefixes: HashSet<u64> = HashSet::new();
+    let note_trace = |t: &Trace, traces: &mut HashSet<u64>, prefixes: &mut HashSet<u64>| {
+        let mut h: u64 = 0xcbf29ce484222325;
+        for (id, ctx) in t {
+            for b in id.as_bytes() {
+                h = (h ^ *b as u64).wrapping_mul(0x100000001b3);
+            }
+            h = (h ^ *ctx).wrapping_mul(0x100000001b3);
+            prefixes.insert(h);
+        }
+        traces.insert(h);
+    };
+    note_trace(&t0, &mut traces, &mut prefixes);
+    let mut runs = 1u64;
+    let mut transitions = t0.len() as u64;
+    let mut differing = 0u64;
+    // depth-first over deviation vectors
+    let mut stack: Vec<(Vec<usize>, usize)> = vec![(vec![], t0.len())];
+    while let Some((devs, len)) = stack.pop() {
+        if devs.len() >= bound {
+            continue;
+        }
+        let from = devs.last().map(|x| x + 1).unwrap_or(0);
+        for i in from..len {
+            let mut d = devs.clone();
+            d.push(i);
+            let (r, b, t) = exec(&d);
+            runs += 1;
+            transitions += t.len() as u64;
+            note_trace(&t, &mut traces, &mut prefixes);
+            if t != t0 {
+                differing += 1;
+            }
+            // every 50th schedule is replayed: identical observations required
+            if runs % 50 == 0 {
+                let (_, b2, t2) = exec(&d);
+                if t2 != t || b2 != b {
+                    out.fail("harness_panic", &[], format!("schedule {:?} is not reproducible", d));
+                    return;
+                }
+                out.count("schedules_replayed_twice", 1);
+            }
+            match r {
+                Err(e) => {
+                    out.fail("write_fails_under_some_schedule", tags, format!("deviation vector {:?} (yield at hook occurrences; e.g. {:?}): {}", d, d.iter().map(|k| t.get(*k)).collect::<Vec<_>>(), e));
+                    if out.fails.len() > 3 {
+                        return;
+                    }
+                }
+                Ok(()) => {
+                    if b != b0 {
+                        out.fail(
+                            "bytes_depend_on_schedule",
+                            tags,
+                            format!("deviation vector {:?} (yield at {:?}) gives {} bytes that differ from the default schedule's {} bytes", d, d.iter().map(|k| t.get(*k)).collect::<Vec<_>>(), b.len(), b0.len()),
+                        );
+                        if out.fails.len() > 3 {
+                            return;
+                        }
+                    }
+                }
+            }
+            stack.push((d, t.len()));
+        }
+    }
+    out.count("executions", runs);
+    out.count("hook_events", transitions);
+    out.count("distinct_traces", traces.len() as u64);
+    out.count("distinct_trace_prefixes", prefixes.len() as u64);
+    out.count("executions_with_a_different_trace", differing);
+    if traces.len() >= 2 {
+        out.count("scenarios_with_2+_traces", 1);
+    }
+    out.outcome_hash = Some(fnv(&b0) ^ traces.len() as u64);
+}
+
+/// One execution of the real multi-threaded converter on `bbi` under the given yield set, its
+/// tasks driven by a current-thread runtime.
+fn execute_conv(c: &C11Case, bbi: &std::path::Path, yields: &[usize]) -> Exec {
+    use bigtools::utils::cli::bigbedtobed::write_bed;
+    use bigtools::utils::cli::bigwigtobedgraph::write_bg;
+    let ctl = Arc::new(Ctl { yields: yields.to_vec(), state: Mutex::new((0, vec![])) });
+    bigtools::utils::verif_hooks::set_current_thread_converters(true);
+    set_controller(Some(ctl.clone()));
+    let outf = tempfile::NamedTempFile::new().expect("tempfile");
+    let res = guarded(|| -> Result<(), String> {
+        let file = outf.reopen().map_err(|e| format!("{}", e))?;
+        if c.bed {
+            let rd = bigtools::BigBedRead::open_file(bbi).map_err(|e| format!("{}", e))?;
+            write_bed(rd, file, c.inmemory, c.chan.max(1)).map_err(|e| format!("{}", e))
+        } else {
+            let rd = bigtools::BigWigRead::open_file(bbi).map_err(|e| format!("{}", e))?;
+            write_bg(rd, file, c.inmemory, c.chan.max(1)).map_err(|e| format!("{}", e))
+        }
+    });
+    set_controller(None);
+    bigtools::utils::verif_hooks::set_current_thread_converters(false);
+    let trace = ctl.state.lock().unwrap().1.clone();
+    let res = match res {
+        Ok(r) => r,
+        Err(p) => Err(format!("panic: {}", p)),
+    };
+    (res, std::fs::read(outf.path()).unwrap_or_default(), trace)
+}
+
+fn run_conv(c: &C11Case, out: &mut Outcome) {
+    use bigtools::utils::cli::bigbedtobed::write_bed_singlethreaded;
+    use bigtools::utils::cli::bigwigtobedgraph::write_bg_singlethreaded;
+    let mut tags = c11_tags(c);
+    tags.push("converter".into());
+    let mut tf = tempfile::NamedTempFile::new().expect("tempfile");
+    tf.write_all(input_text(c).as_bytes()).unwrap();
+    tf.flush().unwrap();
+    // the file to convert: written by the real writer (default schedule, no controller)
+    let mut wc = c.clone();
+    wc.source = Source::SerialIter;
+    wc.chan = 100;
+    wc.inmemory = true;
+    let (r, bytes, _) = execute(&wc, tf.path(), &[], Rt::Current);
+    if let Err(e) = r {
+        out.fail("baseline_write_failed", &tags, e);
+        return;
+    }
+    let mut bf = tempfile::NamedTempFile::new().expect("tempfile");
+    bf.write_all(&bytes).unwrap();
+    bf.flush().unwrap();
+    // the single-threaded path's text, which is also the input text
+    let sf = tempfile::NamedTempFile::new().expect("tempfile");
+    let single = guarded(|| -> Result<(), String> {
+        let file = sf.reopen().map_err(|e| format!("{}", e))?;
+        if c.bed {
+            let rd = bigtools::BigBedRead::open_file(bf.path()).map_err(|e| format!("{}", e))?;
+            write_bed_singlethreaded(rd, file, None, None, None, None).map_err(|e| format!("{}", e))
+        } else {
+            let rd = bigtools::BigWigRead::open_file(bf.path()).map_err(|e| format!("{}", e))?;
+            write_bg_singlethreaded(rd, file, None, None, None).map_err(|e| format!("{}", e))
+        }
+    });
+    match single {
+        Ok(Ok(())) => {}
+        other => {
+            out.fail("single_threaded_converter_failed", &tags, format!("{:?}", other));
+            return;
+        }
+    }
+    let single_text = std::fs::read(sf.path()).unwrap_or_default();
+    if single_text != input_text(c).as_bytes() {
+        out.fail(
+            "single_threaded_converter_text_differs_from_input",
+            &tags,
+            format!("{} bytes vs input {} bytes", single_text.len(), input_text(c).len()),
+        );
+        return;
+    }
+    let first = execute_conv(c, bf.path(), &[]);
+    if let Err(e) = &first.0 {
+        out.fail("write_fails_under_some_schedule", &tags, format!("default schedule: {}", e));
+        return;
+    }
+    out.count("converter_scenarios", 1);
+    let path = bf.path().to_path_buf();
+    explore(c.bound, &tags, Some(&single_text), &mut |y| execute_conv(c, &path, y), first, out);
+}
+
 pub struct C11;
 
 fn c11_tags(c: &C11Case) -> Vec<String> {
@@ -208,18 +414,34 @@ impl Check for C11 {
                         if quick && source == Source::SerialFile && (nchrom == 3) {
                             continue;
                         }
-                        v.push(C11Case { bed, nchrom, items: 3, ips, source, two_pass, chan, inmemory, bound: 2, sweep_threads: None });
+                        v.push(C11Case { bed, nchrom, items: 3, ips, source, two_pass, chan, inmemory, bound: 2, sweep_threads: None, conv: false, long_rest: 0 });
                     }
                     if source == Source::ParallelFile {
                         // more chromosomes than the parallel source queues at once (4 + 1)
-                        v.push(C11Case { bed, nchrom: 6, items: 2, ips: 1, source, two_pass, chan: 100, inmemory: true, bound: 2, sweep_threads: None });
+                        v.push(C11Case { bed, nchrom: 6, items: 2, ips: 1, source, two_pass, chan: 100, inmemory: true, bound: 2, sweep_threads: None, conv: false, long_rest: 0 });
                     }
                     if !quick {
                         // bound 3 on the smallest scenario of each kind
-                        v.push(C11Case { bed, nchrom: 2, items: 2, ips: 1, source, two_pass, chan: 0, inmemory: true, bound: 3, sweep_threads: None });
+                        v.push(C11Case { bed, nchrom: 2, items: 2, ips: 1, source, two_pass, chan: 0, inmemory: true, bound: 3, sweep_threads: None, conv: false, long_rest: 0 });
                     }
                 }
             }
+        }
+        // layer 1b: the multi-threaded text converters (chan = their thread count)
+        for bed in [false, true] {
+            let combos: Vec<(usize, u32, usize, bool, usize)> = if quick {
+                // (chromosomes, values per chromosome, threads, inmemory, bound)
+                vec![(2, 2, 1, true, 2), (3, 2, 2, false, 2), (4, 1, 6, true, 2)]
+            } else {
+                vec![(2, 2, 1, true, 3), (3, 2, 2, false, 3), (4, 1, 6, true, 3), (3, 3, 1, false, 2), (4, 2, 3, true, 2), (4, 2, 16, false, 2)]
+            };
+            for (nchrom, items, threads, inmemory, bound) in combos {
+                v.push(C11Case { bed, nchrom, items, ips: 2, source: Source::SerialIter, two_pass: false, chan: threads, inmemory, bound, sweep_threads: None, conv: true, long_rest: 0 });
+            }
+        }
+        // a line longer than every buffer on the way (70 KB), staged in memory and in a file
+        for inmemory in [true, false] {
+            v.push(C11Case { bed: true, nchrom: 2, items: 2, ips: 2, source: Source::SerialIter, two_pass: false, chan: 2, inmemory, bound: 1, sweep_threads: None, conv: true, long_rest: 70_000 });
         }
         // layer 3: configuration sweep on real runtimes (sampling over OS schedules)
         let threads: Vec<usize> = if quick { vec![1, 2, 4, 8, 16] } else { (1..=16).collect() };
@@ -231,7 +453,7 @@ impl Check for C11 {
                             if quick && (t + chan) % 2 == 1 {
                                 continue;
                             }
-                            v.push(C11Case { bed, nchrom: 8, items: 40, ips: 4, source, two_pass, chan, inmemory, bound: 0, sweep_threads: Some(t) });
+                            v.push(C11Case { bed, nchrom: 8, items: 40, ips: 4, source, two_pass, chan, inmemory, bound: 0, sweep_threads: Some(t), conv: false, long_rest: 0 });
                         }
                     }
                 }
@@ -240,8 +462,12 @@ impl Check for C11 {
         Box::new(v.into_iter())
     }
     fn run(&self, c: &C11Case, out: &mut Outcome) {
-        let tags = c11_tags(c);
         out.nontrivial = true;
+        if c.conv {
+            run_conv(c, out);
+            return;
+        }
+        let tags = c11_tags(c);
         let mut tf = tempfile::NamedTempFile::new().expect("tempfile");
         tf.write_all(input_text(c).as_bytes()).unwrap();
         tf.flush().unwrap();
@@ -252,6 +478,17 @@ impl Check for C11 {
         if let Err(e) = &r0 {
             out.fail("baseline_write_failed", &tags, e.clone());
             return;
+        }
+        // serial and per-chromosome-parallel parsing give the same bytes: compare with the
+        // iterator source's default schedule
+        if c.source != Source::SerialIter {
+            let mut canon = c.clone();
+            canon.source = Source::SerialIter;
+            let (rc, bc, _) = execute(&canon, &path, &[], Rt::Current);
+            out.count("cross_source_comparisons", 1);
+            if rc.is_ok() && bc != b0 {
+                out.fail("bytes_depend_on_source", &tags, format!("{:?} source gives {} bytes that differ from the iterator source's {} bytes", c.source, b0.len(), bc.len()));
+            }
         }
         if let Some(threads) = c.sweep_threads {
             // supplementary sampling: real runtimes, repeated; bytes must equal the reference
@@ -283,89 +520,7 @@ impl Check for C11 {
             out.outcome_hash = Some(fnv(&b0));
             return;
         }
-        out.count("scenarios", 1);
-        out.count("hook_occurrences_baseline", t0.len() as u64);
-        // determinism of the harness: the same decisions give the same trace and bytes
-        let (_, b0b, t0b) = execute(c, &path, &[], Rt::Current);
-        if t0b != t0 || b0b != b0 {
-            out.fail("harness_panic", &[], "replaying the all-default schedule gave a different trace or different bytes: a source of nondeterminism is not under the explorer's control".into());
-            return;
-        }
-        let mut traces: HashSet<u64> = HashSet::new();
-        let mut prefixes: HashSet<u64> = HashSet::new();
-        let mut note_trace = |t: &Vec<(&'static str, u64)>, traces: &mut HashSet<u64>, prefixes: &mut HashSet<u64>| {
-            let mut h: u64 = 0xcbf29ce484222325;
-            for (id, ctx) in t {
-                for b in id.as_bytes() {
-                    h = (h ^ *b as u64).wrapping_mul(0x100000001b3);
-                }
-                h = (h ^ *ctx).wrapping_mul(0x100000001b3);
-                prefixes.insert(h);
-            }
-            traces.insert(h);
-        };
-        note_trace(&t0, &mut traces, &mut prefixes);
-        let mut runs = 1u64;
-        let mut transitions = t0.len() as u64;
-        let mut differing = 0u64;
-        // depth-first over deviation vectors
-        let mut stack: Vec<(Vec<usize>, usize)> = vec![(vec![], t0.len())];
-        while let Some((devs, len)) = stack.pop() {
-            if devs.len() >= c.bound {
-                continue;
-            }
-            let from = devs.last().map(|x| x + 1).unwrap_or(0);
-            for i in from..len {
-                let mut d = devs.clone();
-                d.push(i);
-                let (r, b, t) = execute(c, &path, &d, Rt::Current);
-                runs += 1;
-                transitions += t.len() as u64;
-                note_trace(&t, &mut traces, &mut prefixes);
-                if t != t0 {
-                    differing += 1;
-                }
-                // every 50th schedule is replayed: identical observations required
-                if runs % 50 == 0 {
-                    let (_, b2, t2) = execute(c, &path, &d, Rt::Current);
-                    if t2 != t || b2 != b {
-                        out.fail("harness_panic", &[], format!("schedule {:?} is not reproducible", d));
-                        return;
-                    }
-                    out.count("schedules_replayed_twice", 1);
-                }
-                match r {
-                    Err(e) => {
-                        out.fail("write_fails_under_some_schedule", &tags, format!("deviation vector {:?} (yield at hook occurrences; e.g. {:?}): {}", d, d.iter().map(|k| t.get(*k)).collect::<Vec<_>>(), e));
-                        if out.fails.len() > 3 {
-                            return;
-                        }
-                    }
-                    Ok(()) => {
-                        if b != b0 {
-                            out.fail(
-                                "bytes_depend_on_schedule",
-                                &tags,
-                                format!("deviation vector {:?} (yield at {:?}) gives {} bytes that differ from the default schedule's {} bytes", d, d.iter().map(|k| t.get(*k)).collect::<Vec<_>>(), b.len(), b0.len()),
-                            );
-                            if out.fails.len() > 3 {
-                                return;
-                            }
-                        }
-                    }
-                }
-                stack.push((d, t.len()));
-            }
-        }
-        out.count("executions", runs);
-        out.count("hook_events", transitions);
-        out.count("distinct_traces", traces.len() as u64);
-        out.count("distinct_trace_prefixes", prefixes.len() as u64);
-        out.count("executions_with_a_different_trace", differing);
-        if traces.len() >= 2 {
-            out.count("scenarios_with_2+_traces", 1);
-        }
-        out.outcome_hash = Some(fnv(&b0) ^ traces.len() as u64);
+        explore(c.bound, &tags, None, &mut |y| execute(c, &path, y, Rt::Current), (r0, b0, t0), out);
     }
     fn space(&self, tier: Tier) -> serde_json::Value {
         let q = tier == Tier::Quick;
